@@ -91,6 +91,9 @@ def run(ctx):
             continue
         for bid, a, rl, rr in ts_comparisons(f):
             listed.append('%s: %s (%s,%s)' % (f.name, dstr(a), rl, rr))
+            if f.name == 'Node::UpdatePhonyMtime' and (rl, rr) == ('NODE', 'TS') and a.get('op') == '<' and \
+                    mentions_field(a['l'], 'Node::mtime_'):
+                continue        # the max-update of a phony node's mtime (`mtime_ = max(mtime_, t)`): C03.G3 checks its direction
             ctx.check('C01.CC', (rl, rr) in known, f.name, 'CC:unlisted-comparison:%s-%s' % (rl, rr),
                       'src/%s:%s' % (f.file, f.term(bid)['line']),
                       'timestamp comparison `%s` (%s vs %s) in %s is covered by a contract' % (dstr(a), rl, rr, f.name))
